@@ -54,6 +54,7 @@ inductive Err where
   | depth            -- path.step: ErrDepth
   | get              -- error returned by Getter.Get
   | fn (code : Nat)  -- error returned by the decode function
+  | aborted          -- "exclusive decode did not complete": the owner's function panicked
   deriving DecidableEq, Repr
 
 /-- outcome of a call -/
@@ -222,9 +223,31 @@ def retExc (s : State) (t : Tid) (rest : List Frame) (o : Obj) (tp : Ty) (res : 
     (p : Option Pid) : State :=
   deliver { s with hist := .exc t o tp res p :: s.hist } t rest res
 
-/-- the goroutine panics: its stack is unwound, nothing is cleaned up -/
+/-- the deferred function of `DecodeExclusive` (commit "DecodeExclusive releases its marker when
+the decode function does not return"): when a panic (or `runtime.Goexit`) unwinds a stack, every
+exclusive owner on it which has not finished sets `p.err`, deletes its `wip` entry and closes
+`p.done`.  Only an owner inside its `Decode` call (`exRun`) can have a running decode function
+above it; the other owner phases are released in the same way so that the function is total. -/
+def releaseOwned (s : State) : List Frame → State
+  | [] => s
+  | f :: rest =>
+    let s1 := releaseOwned s rest
+    match f with
+    | .exStart k p _ =>
+      { s1 with pend := upd s1.pend p ⟨true, some (.err .aborted), (s1.pend p).key⟩, wip := upd s1.wip k none }
+    | .exRun k p =>
+      { s1 with pend := upd s1.pend p ⟨true, some (.err .aborted), (s1.pend p).key⟩, wip := upd s1.wip k none }
+    | .exPub k p _ =>
+      { s1 with pend := upd s1.pend p ⟨true, some (.err .aborted), (s1.pend p).key⟩, wip := upd s1.wip k none }
+    | .exClose _ p _ =>
+      { s1 with pend := upd s1.pend p ⟨true, (s1.pend p).out, (s1.pend p).key⟩ }
+    | _ => s1
+
+/-- the goroutine panics: its stack is unwound; the deferred functions of the exclusive owners on
+it release their markers, nothing else is cleaned up -/
 def crash (s : State) (t : Tid) (ev : Event) : State :=
-  { s with thr := upd s.thr t [.dead], hist := ev :: s.hist }
+  let s1 := releaseOwned s (s.thr t)
+  { s1 with thr := upd s1.thr t [.dead], hist := ev :: s1.hist }
 
 /-- one iteration of `Decode`'s reference loop with current object `o`, up to the next
 scheduling point -/
